@@ -160,8 +160,32 @@ def check_hexital_purge(prop: str, res: Result, repo: Repo):
             if sorted(hit) != sorted(want):
                 bad = f"with name={asked!r} operates on {sorted(hit)}; expected {want} (indicators registered: 'A', 'AB', 'B')"
                 break
+        # names that are also indicator codes ('ROC' is ROC's default name): still exactly that one, not every ROC
+        for asked in (() if bad else ("ROC", "EMA_3", "EMA")):
+            it = cs.Interp(repo, "hexital.core.hexital", "Hexital")
+            hit = []
+            inds = {}
+            for n_, cls_ in (("ROC", "ROC"), ("ROC_5", "ROC"), ("EMA_3", "EMA")):
+                o = cs.ObjV(f"indicator {n_}", {"name": n_}, cls_)
+                for meth in ("purge", "calculate", "calculate_index", "recalculate"):
+                    o.attrs[meth] = (lambda a, k, n__=n_: hit.append(n__))
+                inds[n_] = o
+            selfo = cs.ObjV("self", {"_indicators": inds, "_candles": {}}, "Hexital")
+            fn = it.method(nm)
+            params = [p_.arg for p_ in fn.args.args[1:]]
+            kwargs = {"name": asked} if "name" in params else {}
+            if "index" in params:
+                kwargs["index"] = -1
+            try:
+                it.call_function(fn, [], kwargs, bound_first=selfo)
+            except (cs.Undecided, cs.Raised):
+                break  # (the plain-name scenarios above decided the rule)
+            want = [asked] if asked in inds else []
+            if sorted(hit) != sorted(want):
+                bad = f"with name={asked!r} operates on {sorted(hit)}; expected {want} (registered: ROC 'ROC', ROC 'ROC_5', EMA 'EMA_3')"
+                break
         if bad is None:
-            res.ok(rule, {"site": m.where, "selection": "all when no name is given, exactly the named indicator otherwise (6 names evaluated)"}, nontrivial=f"Hexital.{nm}")
+            res.ok(rule, {"site": m.where, "selection": "all when no name is given, exactly the named indicator otherwise (9 names evaluated)"}, nontrivial=f"Hexital.{nm}")
         elif bad != "undecided":
             res.fail(rule, finding(prop, rule, m, m.node, f"Hexital.{nm} {bad}: an operation aimed at one indicator touches others (or misses it)", construct=f"Hexital.{nm}: selection"))
     rm = repo.method("hexital.core.hexital", "Hexital", "remove_indicator")
@@ -238,8 +262,8 @@ def check_raw_copies(prop: str, res: Result, repo: Repo, want=("method", "append
             FIELDS = ("open", "high", "low", "close", "volume", "timestamp")
             bad = None
             for label, converted in (("a converted, tagged candle with readings", True), ("an unconverted candle with readings", False)):
-                cur = {f: cs.Sym(f"current {f}", "float") for f in FIELDS}
-                raw = {f: cs.Sym(f"raw {f}", "float") for f in FIELDS}
+                cur = {f: 11.0 + i_ for i_, f in enumerate(FIELDS)}
+                raw = {f: (0 if f == "volume" else 1.0 + i_) for i_, f in enumerate(FIELDS)}  # (a raw volume of 0 is legitimate)
                 readings, helper = {"EMA_10": cs.Sym("a reading", "float")}, {"EMA_10_h": cs.Sym("a helper reading", "float")}
                 saved = dict(raw)
                 saved.update({"clean_values": {}, "indicators": {"stale": cs.Sym("a stale reading", "float")}, "sub_indicators": {}})
@@ -260,8 +284,8 @@ def check_raw_copies(prop: str, res: Result, repo: Repo, want=("method", "append
                 want_f = raw if converted else cur
                 if not isinstance(got, cs.ObjV) or got is selfo:
                     bad = f"returns {got!r} for {label}, not a new candle object"
-                elif any(got.attrs.get(f) is not want_f[f] for f in FIELDS):
-                    f_ = next(f for f in FIELDS if got.attrs.get(f) is not want_f[f])
+                elif any(got.attrs.get(f) != want_f[f] or type(got.attrs.get(f)) is not type(want_f[f]) for f in FIELDS):
+                    f_ = next(f for f in FIELDS if got.attrs.get(f) != want_f[f] or type(got.attrs.get(f)) is not type(want_f[f]))
                     bad = f"the copy of {label} has {f_} = {got.attrs.get(f_)!r}, expected the {'raw (pre-conversion)' if converted else 'own'} value {want_f[f_]!r}"
                 elif got.attrs.get("clean_values") != {} or got.attrs.get("indicators") != {} or got.attrs.get("sub_indicators") != {} or got.attrs.get("_tag") is not None:
                     bad = f"the copy of {label} still carries saved values / readings / a conversion tag ({ {k: got.attrs.get(k) for k in ('clean_values', 'indicators', 'sub_indicators', '_tag')}!r})"
